@@ -84,3 +84,106 @@ func Encode(base, id, codec uint64, batches [][][]byte, seal bool) Encoded {
 	}
 	return e
 }
+
+// ---- decoder side: an audit of a segment image against the README layout ----
+
+// AuditResult is what a walk over a segment image found, frame by frame, up to
+// the commit frame that covers the want-th entry (and, if an index frame follows
+// directly, up to the commit frame that validates the index).
+type AuditResult struct {
+	HeaderOK    bool     // magic, version, BaseIndex, SegmentID, Codec as expected
+	Entries     int      // entry frames walked
+	Commits     int      // commit frames walked
+	CRCsOK      bool     // every commit frame walked holds the CRC-32C of exactly the bytes since the previous commit frame (the first one: since the start of the file, header included)
+	PaddingZero bool     // the 0-7 bytes after every frame payload are zero
+	Covered     bool     // the want-th entry is followed (in its batch) by a commit frame: nothing acknowledged is uncommitted
+	HasIndex    bool     // an index frame was walked
+	IndexOK     bool     // ... its length is 4 bytes per entry frame before it and its elements are their file offsets, and a commit frame follows it
+	IndexStart  uint64   // file offset of the index array
+	Offsets     []uint32 // file offset of each entry frame
+	Payloads    [][]byte // payload of each entry frame
+}
+
+func rd32(b []byte) uint32 {
+	return uint32(b[0]) | uint32(b[1])<<8 | uint32(b[2])<<16 | uint32(b[3])<<24
+}
+func rd64(b []byte) uint64 { return uint64(rd32(b)) | uint64(rd32(b[4:]))<<32 }
+
+// Audit walks file as the README describes a segment file. In a sealed segment the walk goes on
+// to the index frame (a tail truncation may have left more entry frames than the metadata counts).
+func Audit(file []byte, base, id, codec uint64, want int, sealed bool) AuditResult {
+	r := AuditResult{CRCsOK: true, PaddingZero: true, IndexOK: true}
+	if len(file) < HeaderLen {
+		return r
+	}
+	r.HeaderOK = rd32(file) == Magic && file[4] == 0 && file[5] == 0 && file[6] == 0 && file[7] == Version &&
+		rd64(file[8:]) == base && rd64(file[16:]) == id && rd64(file[24:]) == codec
+	off, crcFrom := HeaderLen, 0
+	done := false // want entries and their commit have been walked; only "index frame + commit" may still follow
+	for off+FrameHdrLen <= len(file) {
+		typ := file[off]
+		n := int(rd32(file[off+4:]))
+		switch typ {
+		case TypeEntry:
+			if done && !sealed {
+				return r // the next batch: not acknowledged (yet), not ours to judge
+			}
+			end := off + FrameHdrLen + n + pad8(n)
+			if n < 0 || end > len(file) {
+				return r
+			}
+			for _, b := range file[off+FrameHdrLen+n : end] {
+				if b != 0 {
+					r.PaddingZero = false
+				}
+			}
+			r.Offsets = append(r.Offsets, uint32(off))
+			r.Payloads = append(r.Payloads, file[off+FrameHdrLen:off+FrameHdrLen+n])
+			r.Entries++
+			off = end
+		case TypeIndex:
+			end := off + FrameHdrLen + n + pad8(n)
+			if n < 0 || end > len(file) {
+				return r
+			}
+			r.HasIndex = true
+			r.IndexStart = uint64(off + FrameHdrLen)
+			if n != 4*r.Entries {
+				r.IndexOK = false
+			} else {
+				for i, o := range r.Offsets {
+					if rd32(file[off+FrameHdrLen+4*i:]) != o {
+						r.IndexOK = false
+					}
+				}
+			}
+			for _, b := range file[off+FrameHdrLen+n : end] {
+				if b != 0 {
+					r.PaddingZero = false
+				}
+			}
+			off = end
+			// "a commit frame follows to validate the final write"
+			if off+FrameHdrLen > len(file) || file[off] != TypeCommit {
+				r.IndexOK = false
+			}
+		case TypeCommit:
+			if uint32(n) != crc32.Checksum(file[crcFrom:off], castagnoli) {
+				r.CRCsOK = false
+			}
+			r.Commits++
+			off += FrameHdrLen
+			crcFrom = off
+			if r.Entries >= want {
+				r.Covered = true
+				done = true
+			}
+			if r.HasIndex {
+				return r
+			}
+		default:
+			return r
+		}
+	}
+	return r
+}
